@@ -92,72 +92,136 @@ func isTestFile(fset *token.FileSet, f *ast.File) bool {
 	return strings.HasSuffix(fset.Position(f.Pos()).Filename, "_test.go")
 }
 
-// appFacts: map-range sites, clock/random/os calls, fork override table of package app.
+// appFacts: map-range sites, clock/random/os calls in every function of the module that is
+// statically reachable from the ABCI entry points of package app (plus every function of package app
+// itself), and the fork override table.
 func appFacts(out string) {
-	var ranges, clocks, overrides [][2]string
-	for _, p := range load("app", "keyper/shutterevents", "medley") {
-		prefix := ""
-		if p.Name != "app" {
-			prefix = p.Name + ":"
+	cfg := &packages.Config{Mode: packages.NeedName | packages.NeedFiles | packages.NeedSyntax | packages.NeedTypes |
+		packages.NeedTypesInfo | packages.NeedImports | packages.NeedDeps}
+	roots, err := packages.Load(cfg, modPath+"/app")
+	if err != nil || len(roots) != 1 || len(roots[0].Errors) > 0 {
+		fmt.Fprintln(os.Stderr, "factx: load app:", err, roots[0].Errors)
+		os.Exit(1)
+	}
+	app := roots[0]
+	// all module packages among the dependencies
+	mods := map[string]*packages.Package{}
+	var visit func(p *packages.Package)
+	visit = func(p *packages.Package) {
+		if _, ok := mods[p.PkgPath]; ok || !strings.HasPrefix(p.PkgPath, modPath) {
+			return
 		}
+		mods[p.PkgPath] = p
+		for _, q := range p.Imports {
+			visit(q)
+		}
+	}
+	visit(app)
+	type fn struct {
+		pkg  *packages.Package
+		decl *ast.FuncDecl
+	}
+	decls := map[*types.Func]fn{}
+	for _, p := range mods {
 		for _, f := range p.Syntax {
 			if isTestFile(p.Fset, f) {
 				continue
 			}
 			for _, d := range f.Decls {
-				fd, ok := d.(*ast.FuncDecl)
-				if !ok || fd.Body == nil {
-					continue
+				if fd, ok := d.(*ast.FuncDecl); ok && fd.Body != nil {
+					if obj, ok := p.TypesInfo.Defs[fd.Name].(*types.Func); ok {
+						decls[obj] = fn{p, fd}
+					}
 				}
-				if p.Name == "medley" && fd.Name.Name != "EnsureUniqueAddresses" {
+			}
+		}
+	}
+	// reachability from every function of package app (a superset of the ABCI entry points)
+	reach := map[*types.Func]bool{}
+	var work []*types.Func
+	for obj, f := range decls {
+		if f.pkg == app {
+			reach[obj] = true
+			work = append(work, obj)
+		}
+	}
+	for len(work) > 0 {
+		cur := work[len(work)-1]
+		work = work[:len(work)-1]
+		f := decls[cur]
+		ast.Inspect(f.decl.Body, func(n ast.Node) bool {
+			id, ok := n.(*ast.Ident)
+			if !ok {
+				return true
+			}
+			if callee, ok := f.pkg.TypesInfo.Uses[id].(*types.Func); ok {
+				callee = callee.Origin()
+				if _, has := decls[callee]; has && !reach[callee] {
+					reach[callee] = true
+					work = append(work, callee)
+				}
+			}
+			return true
+		})
+	}
+	var ranges, clocks, overrides [][2]string
+	for obj, f := range decls {
+		if !reach[obj] {
+			continue
+		}
+		p := f.pkg
+		prefix := ""
+		if p != app {
+			prefix = p.Name + ":"
+		}
+		name := prefix + funcName(f.decl)
+		ast.Inspect(f.decl.Body, func(n ast.Node) bool {
+			switch x := n.(type) {
+			case *ast.RangeStmt:
+				if t := p.TypesInfo.TypeOf(x.X); t != nil {
+					if _, ok := t.Underlying().(*types.Map); ok {
+						ranges = append(ranges, [2]string{name, exprText(p.Fset, x.X)})
+					}
+				}
+			case *ast.SelectorExpr:
+				if id, ok := x.X.(*ast.Ident); ok {
+					if pn, ok := p.TypesInfo.Uses[id].(*types.PkgName); ok {
+						switch pn.Imported().Path() {
+						case "time", "math/rand", "crypto/rand", "os", "runtime", "unsafe", "sync", "math/rand/v2", "sync/atomic":
+							clocks = append(clocks, [2]string{name, pn.Imported().Path() + "." + x.Sel.Name})
+						}
+					}
+				}
+			case *ast.GoStmt:
+				clocks = append(clocks, [2]string{name, "go-statement"})
+			case *ast.SelectStmt:
+				clocks = append(clocks, [2]string{name, "select-statement"})
+			}
+			return true
+		})
+	}
+	for _, f := range app.Syntax {
+		if isTestFile(app.Fset, f) {
+			continue
+		}
+		for _, d := range f.Decls {
+			gd, ok := d.(*ast.GenDecl)
+			if !ok {
 				continue
 			}
-			name := prefix + funcName(fd)
-				ast.Inspect(fd.Body, func(n ast.Node) bool {
-					switch x := n.(type) {
-					case *ast.RangeStmt:
-						if t := p.TypesInfo.TypeOf(x.X); t != nil {
-							if _, ok := t.Underlying().(*types.Map); ok {
-								ranges = append(ranges, [2]string{name, exprText(p.Fset, x.X)})
-							}
-						}
-					case *ast.SelectorExpr:
-						if id, ok := x.X.(*ast.Ident); ok {
-							if pn, ok := p.TypesInfo.Uses[id].(*types.PkgName); ok {
-								switch pn.Imported().Path() {
-								case "time", "math/rand", "crypto/rand", "os", "runtime", "unsafe", "sync", "math/rand/v2":
-									clocks = append(clocks, [2]string{name, pn.Imported().Path() + "." + x.Sel.Name})
-								}
-							}
-						}
-					case *ast.GoStmt:
-						clocks = append(clocks, [2]string{name, "go-statement"})
-					case *ast.SelectStmt:
-						clocks = append(clocks, [2]string{name, "select-statement"})
-					}
-					return true
-				})
-			}
-			// forkHeightOverrides table
-			for _, d := range f.Decls {
-				gd, ok := d.(*ast.GenDecl)
+			for _, s := range gd.Specs {
+				vs, ok := s.(*ast.ValueSpec)
+				if !ok || len(vs.Names) == 0 || vs.Names[0].Name != "forkHeightOverrides" || len(vs.Values) == 0 {
+					continue
+				}
+				cl, ok := vs.Values[0].(*ast.CompositeLit)
 				if !ok {
 					continue
 				}
-				for _, s := range gd.Specs {
-					vs, ok := s.(*ast.ValueSpec)
-					if !ok || len(vs.Names) == 0 || vs.Names[0].Name != "forkHeightOverrides" || len(vs.Values) == 0 {
-						continue
-					}
-					cl, ok := vs.Values[0].(*ast.CompositeLit)
-					if !ok {
-						continue
-					}
-					for _, el := range cl.Elts {
-						kv := el.(*ast.KeyValueExpr)
-						key, _ := strconv.Unquote(kv.Key.(*ast.BasicLit).Value)
-						overrides = append(overrides, [2]string{key, nodeText(p.Fset, kv.Value)})
-					}
+				for _, el := range cl.Elts {
+					kv := el.(*ast.KeyValueExpr)
+					key, _ := strconv.Unquote(kv.Key.(*ast.BasicLit).Value)
+					overrides = append(overrides, [2]string{key, nodeText(app.Fset, kv.Value)})
 				}
 			}
 		}
@@ -167,10 +231,10 @@ func appFacts(out string) {
 	sortPairs(overrides)
 	clocks = dedup(clocks)
 	var sb strings.Builder
-	sb.WriteString("/- GENERATED by harness/factx from /repo/rolling-shutter/app — do not edit. -/\nnamespace Shutter.Generated.AppFacts\n\n")
-	sb.WriteString("/-- every `range` over a map in package app: (function, ranged expression) -/\n")
+	sb.WriteString("/- GENERATED by harness/factx from /repo/rolling-shutter (package app and everything it reaches) — do not edit. -/\nnamespace Shutter.Generated.AppFacts\n\n")
+	sb.WriteString("/-- every `range` over a map reachable from package app: (function, ranged expression) -/\n")
 	sb.WriteString(pairsDef("mapRanges", ranges))
-	sb.WriteString("\n/-- every use of clock, randomness, OS, goroutines in package app: (function, what) -/\n")
+	sb.WriteString("\n/-- every use of clock, randomness, OS, goroutines reachable from package app: (function, what) -/\n")
 	sb.WriteString(pairsDef("clockCalls", clocks))
 	sb.WriteString("\n/-- the static table forkHeightOverrides: (chain id, value expression) -/\n")
 	sb.WriteString(pairsDef("forkOverrides", overrides))
